@@ -20,6 +20,7 @@ pub mod ptime;
 pub mod pregex;
 pub mod pwalk;
 pub mod pwloop;
+pub mod pxeloop;
 pub mod pxloop;
 pub mod pxsem;
 
@@ -62,6 +63,7 @@ pub fn get(name: &str) -> Option<Box<dyn Prop>> {
         "XSEM" => Some(Box::new(pxsem::PXSem::default())),
         "XLOOP" => Some(Box::new(pxloop::PXLoop::default())),
         "WLOOP" => Some(Box::new(pwloop::PWLoop::default())),
+        "ELOOP" => Some(Box::new(pxeloop::PXELoop::default())),
         "C04" => Some(Box::new(p04::P04::default())),
         "C05" => Some(Box::new(p05::P05::default())),
         "C19" => Some(Box::new(p19::P19::default())),
